@@ -91,7 +91,7 @@ def decide(pid, tier, seed):
             ob = {'name': '%s/%s' % (u, fn), 'engine': 'verus', 'status': 'discharged' if info['success'] else 'failed'}
             obligations.append(ob)
         for fn in base:
-            if fn not in main.functions:
+            if fn not in main.functions and (main.functions or not main.failures):
                 undecided.append('%s/%s: baseline obligation no longer generated' % (u, fn))
         for f in main.failures:
             fnshort = f['fn'].split('::')[-1]
@@ -156,7 +156,7 @@ def decide(pid, tier, seed):
                     bounded.append({'name': name, 'bound': h.get('bound', ''), 'status': 'held'})
             elif r['status'] == 'failed':
                 f = {'obligation': name, 'kind': 'kani-assert', 'fn': h['name'], 'msg': '; '.join(r.get('failed_checks', []))[:600],
-                     'clause': h.get('claim', ''), 'detail': r.get('tail', ''), 'region': 'kani', 'cex': r.get('cex')}
+                     'clause': h.get('claim', ''), 'detail': r.get('tail', ''), 'region': 'kani', 'cex': r.get('cex'), 'cex_vals': r.get('cex_vals')}
                 fk = [of for of in open_findings if of.get('harness') == h['name']]
                 if fk:
                     known_hits.append((fk[0], f))
